@@ -101,6 +101,7 @@ Base(j) == Apply(PoolOf(j).fn, PoolOf(j).a, PoolOf(j).s)
 Local == PoolOf(i).good => (Base(i).k = "ok" /\ Base(i).p = Len(PoolOf(i).s) /\ res = Base(i))
 (* ClassStable: on inputs that already contain the declared length the outcome class does not change *)
 ClassStable == res.k = Base(i).k /\ (~PoolOf(i).good => res.k # "ok")
-Pin == IF res.k = "ok" THEN "full" ELSE "novalue"
+(* where the specification answers with an error the CLASS is pinned: a complete malformed structure is an error, not a request for more *)
+Pin == IF res.k = "ok" THEN "full" ELSE IF res.k \in {"err", "fail"} THEN "reject" ELSE "novalue"
 EmitCase == LET c == PoolOf(i) IN EmitLine(CaseLine(i, c.fn, c.a, PartsOf(i), res, Pin, [good |-> c.good, sfx |-> (i - 1) % NSfx]))
 =============================================================================
